@@ -35,7 +35,9 @@ RULE_REAL = (
     "weights / vehicle_rates / cost_aggregation. Boundary families: two-route network whose distance- and time-optimal "
     "routes differ with every override direction, per-edge surcharges on the first / last edge of the shorter route "
     "(forward and reverse) incl. surcharge tables on a weighted feature that has no vehicle rate (absent, Zero, or left out "
-    "by the query's own vehicle_rates), a network that straddles the 180th meridian (best route through a vertex on the "
+    "by the query's own vehicle_rates) and on a zero-length / 1 mm connector edge, objectives so small that every edge costs "
+    "between 0 and Cost::MIN_COST (weights 1e-12..1e-14 on metre-scale edges, hours x 1e-6: three 1.2 m hops against one "
+    "longer edge), a network that straddles the 180th meridian (best route through a vertex on the "
     "other side; a tenth of the random networks straddle it too), a 'highway' network on which an estimate at the mean table speed is inadmissible, the same "
     "with table rows above the soft maximum in each speed unit (the estimate must use the table's own maximum), Combined "
     "chains whose last (or first) mapping alone would flip the route, Dijkstra on a non-metric network, and a chain of "
@@ -148,10 +150,22 @@ def run(chk):
     for name, r in tres.items():
         if not r.get("ok", False):
             vf.log("translator %s: %s (owned by another check; its previous output is used)" % (name, r.get("msg")))
+    if any(not r.get("ok", False) for r in tres.values()):
+        # "previous output": in VERIF_REPO mode the generated tables are not mirrored, so a table whose translator no longer
+        # parses the changed source is taken from the baseline tree - the objective model then still stands for the
+        # UNCHANGED semantics and the streams below can turn the change into a concrete failing input
+        import shutil
+        base = os.path.join(vf.ROOT, "coq", "Gen")
+        dst = os.path.join(vf.COQ, "Gen")
+        os.makedirs(dst, exist_ok=True)
+        for f in sorted(os.listdir(base)):
+            if f.endswith(".v") and not os.path.exists(os.path.join(dst, f)):
+                shutil.copy(os.path.join(base, f), os.path.join(dst, f))
+                vf.log("generated table %s taken from the baseline tree" % f)
     chk.proofs(extra_targets=["Model/ObjectiveRun.vo", "Proofs/OptimalCheck.vo"])
     binp = vf.build_harness("c02")
     quick = chk.tier == "quick"
-    streams = [("opt", 420 if quick else 15000), ("real", 290 if quick else 6000)]
+    streams = [("opt", 420 if quick else 15000), ("real", 310 if quick else 6000)]
     if chk.replay:
         # a replay file names its stream in the case description
         try:
